@@ -452,8 +452,15 @@ func (g *patGen) lit() string {
 	if strings.IndexByte("^$()%.[]*+-?", c) >= 0 {
 		return "%" + string(c)
 	}
+	if r.Chance(7) {
+		// '%' before a letter that names no class is that letter (lstrlib match_class: default), upper case included
+		return "%" + string(Pick(r, pmNonClass))
+	}
 	return string(c)
 }
+
+// letters that are neither a class, nor %b, nor %f
+var pmNonClass = []byte("eghijkmnoqrtvyBEFGHIJKMNOQRTVY")
 
 func (g *patGen) set() string {
 	r := g.r
@@ -483,9 +490,12 @@ func (g *patGen) set() string {
 		case k < 80:
 			sb.WriteByte('%')
 			sb.WriteByte(Pick(r, pmClasses))
-		case k < 88:
+		case k < 86:
 			sb.WriteByte('%')
 			sb.WriteByte(Pick(r, []byte("]-^%.[")))
+		case k < 88:
+			sb.WriteByte('%')
+			sb.WriteByte(Pick(r, pmNonClass))
 		case k < 92:
 			sb.WriteByte(Pick(r, []byte(".^$()*+?[")))
 		default:
@@ -561,6 +571,16 @@ func (g *patGen) seq(n int) string {
 func genPattern(r *Rng) string {
 	g := &patGen{r: r}
 	var sb strings.Builder
+	switch k := r.Intn(100); {
+	case k < 3:
+		return "" // the empty pattern: an empty match at every BYTE position
+	case k < 8: // a plain literal (no magic character at all): what a "fast path" would special-case
+		n := r.Range(1, 3)
+		for i := 0; i < n; i++ {
+			sb.WriteByte(Pick(r, []byte("aabbc1 x_A\xc3\xa9")))
+		}
+		return sb.String()
+	}
 	if r.Chance(18) {
 		sb.WriteByte('^')
 	}
@@ -575,6 +595,14 @@ func genSubject(r *Rng, maxLen int) string {
 	n := r.Intn(maxLen + 1)
 	if r.Chance(10) {
 		n = r.Intn(4)
+	}
+	if r.Chance(12) {
+		// valid multi-byte UTF-8 sequences among ASCII: patterns work on BYTES, whatever the bytes spell
+		var sb strings.Builder
+		for sb.Len() < n {
+			sb.WriteString(Pick(r, []string{"a", "b", "a", "\xc3\xa9", "\xe2\x82\xac", "\xf0\x9f\x98\x80", "\xc3\x9f", " "}))
+		}
+		return sb.String()
 	}
 	b := make([]byte, n)
 	for i := range b {
